@@ -186,7 +186,7 @@ def run_shape(prog, shape, tier, seed, res):
         pathB, pairsB, wqB, hdrB, signedB, bodyB, methB = parts(b, keyB)
         cred = conc_bytes(AKID + '/' + SCOPE)
 
-        def finish(path, pairs, wire_q, headers, signed, bodyb, method, sig_from=None):
+        def finish(path, pairs, wire_q, headers, signed, bodyb, method, sig_from=None, list_text=None):
             headers = list(headers)
             signed = list(signed)
             pairs = list(pairs)
@@ -198,8 +198,9 @@ def run_shape(prog, shape, tier, seed, res):
                 cq = R.ref_canon_query_from_pairs(ctx, pairs)
             else:
                 signed = sorted(signed)
+                lt = list_text(';'.join(signed)) if list_text else ';'.join(signed)
                 for n, v in [('X-Amz-Algorithm', 'AWS4-HMAC-SHA256'), ('X-Amz-Credential', AKID + '/' + SCOPE), ('X-Amz-Date', TS),
-                             ('X-Amz-SignedHeaders', ';'.join(signed))]:
+                             ('X-Amz-SignedHeaders', lt)]:
                     pairs.append((conc_bytes(n), conc_bytes(v)))
                     wire_q += conc_bytes('&' + n + '=') + R.pct_encode(ctx, conc_bytes(v))
                 cq = R.ref_canon_query_from_pairs(ctx, pairs)
@@ -215,7 +216,9 @@ def run_shape(prog, shape, tier, seed, res):
             pathB, pairsB, wqB, hdrB, signedB, bodyB, methB = pathA, pairsA, wqA, hdrA, signedA, bodyA, methA
         else:
             sigB = sigA
-        cpB, cqB, hB, sB, wqB2 = finish(pathB, pairsB, wqB, hdrB, signedB, bodyB, methB)
+        # the list text B presents (in the query carrier it is the X-Amz-SignedHeaders parameter, in the header carrier the Authorization text below)
+        stray = {'signedlist-stray': (lambda t: t + ';'), 'signedlist-leading': (lambda t: ';' + t)}.get(what)
+        cpB, cqB, hB, sB, wqB2 = finish(pathB, pairsB, wqB, hdrB, signedB, bodyB, methB, list_text=stray)
         if carrier == 'header':
             if what in ('signedlist-stray', 'signedlist-leading'):
                 # B presents A's list with an empty entry added (trailing / leading ';'): a different list text, hence not covered by A's signature
@@ -384,8 +387,13 @@ def replay_finding(rp, f):
                 uri = path + '?' + q
             else:
                 signed = sorted(signed)
+                lt = '%3B'.join(signed)
+                if is_b and what == 'signedlist-stray':
+                    lt += '%3B'
+                elif is_b and what == 'signedlist-leading':
+                    lt = '%3B' + lt
                 uri = path + '?' + q + '&X-Amz-Algorithm=AWS4-HMAC-SHA256&X-Amz-Credential=%s&X-Amz-Date=%s&X-Amz-SignedHeaders=%s' % (
-                    (AKID + '/' + SCOPE).replace('/', '%2F'), TS, '%3B'.join(signed))
+                    (AKID + '/' + SCOPE).replace('/', '%2F'), TS, lt)
             return {'carrier': carrier, 'request': {'method': method, 'uri': uri, 'version': 'HTTP/1.1', 'headers': headers,
                                                     'body_hex': body.hex(), 'body_kind': 'bytes'}, 'signed': signed, 's3': False}
         if what in ('key', 'sig'):
